@@ -1,4 +1,6 @@
 import PydraModel.Props.C16
+import PydraModel.Sched.Cached
+import PydraModel.Sched.RerunSync
 /-
 C15 — Jobs start only after the jobs they consume have succeeded; every job is dispatched at most once.
 
@@ -148,5 +150,166 @@ theorem C15_new_only_loses_jobs :
      (runSyncNewOnly wfThree (some 2) [0] (fun _ => false) 60).2.futured,
      ((runSyncNewOnly wfThree (some 2) [0] (fun _ => false) 60).2.ns.get 0).queued)
       = (SyncOutcome.outOfFuel, [0, 1], [2]) := by decide
+
+/-! ### submissions over pre-existing results: what the code guarantees
+
+Without `rerun`, over a cache that holds successful results only (`Cached`), the loop is `Model.lean` started on that
+cache (`Sched/Cached.lean`): cached jobs are never executed, and precedence holds in the form "whatever is dispatched
+belongs to a node all of whose predecessors' jobs have their successful result on disk" at every instant.  With
+`rerun`, or over errored results, see the D71 witnesses below; the limit holds in every case (`C16_rerun`). -/
+
+/-- a cache of successful results (no locks of other submissions, no errored results) -/
+def Cached (w0 : World) : Prop := ∀ c, w0 c = .idle ∨ w0 c = .ok
+
+def InstantC (wf : Wf) (k : Option Nat) (sorted : List NodeId) (w0 : World) (st : St) : Prop :=
+  ∃ sched st0 es, (runFrom wf k sorted (start wf k sorted w0) sched).state? = some st0 ∧ applyEvs st0 es = some st
+
+/-- C15 over a populated cache, no `rerun`, FULL (all graphs, limits, schedules, instants, caches of successful results) -/
+theorem C15_precedence_cached {wf : Wf} {k : Option Nat} {sorted : List NodeId} (hw : WellFormed wf sorted)
+    {w0 : World} (h0 : Cached w0) {st : St} (hi : InstantC wf k sorted w0 st) :
+    -- every job is dispatched at most once, a body executes only inside a pending future of a dispatched job
+    st.futured.Nodup ∧ (∀ c, st.w c = .locked → c ∈ st.futures ∧ c ∈ st.futured) ∧
+    -- whatever has been dispatched belongs to a node all of whose predecessor nodes have only successful jobs
+    (∀ c, c ∈ st.futured →
+      ∃ n, c ∈ (st.ns.get n).cks ∧ ∀ p, p ∈ wf.preds n → ∀ c', c' ∈ (st.ns.get p).cks → st.w c' = .ok) ∧
+    -- a cached result is never replaced
+    (∀ c, w0 c = .ok → st.w c = .ok) := by
+  obtain ⟨sched, st0, es, hrun, hes⟩ := hi
+  have hnl : NoLocks w0 := fun c => by rcases h0 c with h | h <;> rw [h] <;> simp
+  have hc0 : CInv wf k st0 := cinv_runFrom hw.topo sched _ (fun _ h2 => cinv_start hw.topo hnl h2) st0 hrun
+  have hc : CInv wf k st := cinv_applyEvs es hc0 hes
+  have hm0 : WMono w0 st0.w :=
+    runFrom_wmono sched _ w0 (fun st1 h1 => by rw [start_w h1]; exact WMono.refl _) st0 hrun
+  have hm : WMono w0 st.w := hm0.trans (applyEvs_wmono es hes)
+  refine ⟨hc.futuredNodup, fun c h => ⟨hc.lockedPending c h, hc.futuresSub c (hc.lockedPending c h)⟩, ?_,
+    fun c h => hm.ok c h⟩
+  intro c hcf
+  obtain ⟨n, hb, hu, hcn⟩ := hc.legit c hcf
+  exact ⟨n, hcn, fun p hp c' hc' => (hc.ninv.preds n hb hu p hp).2 c' hc'⟩
+
+/-- C15 under `rerun=True`, FULL for the synchronous loop (debug worker) WITHOUT a `max_concurrent` limit: whatever the
+    cache and the readonly caches hold (successful, errored, from any earlier values), whatever bodies fail now:
+    the bodies executed in this submission (`began = ended`: one after the other) are ordered — each belongs to a
+    started node all of whose predecessor nodes' jobs have ENDED EARLIER IN THIS SUBMISSION (`OrdR`) — and when the
+    loop ends successfully every node is done, every job of every node was executed in this submission and the
+    outputs are this submission's values (no old value survives).
+    (`Sched/RerunSync.lean`: without a limit every job a poll hands out is executed before the next poll, so no poll
+    reads a result this submission did not write.  With a limit, or an asynchronous worker: finding D71.) -/
+theorem C15_rerun_sync_unlimited {wf : Wf} {sorted : List NodeId} (hw : WellFormed wf sorted) (cfg : RCfg)
+    (hr : cfg.rerun = true) (w0 : World) (fail : Ck → Bool) (fuel : Nat) :
+    (runSyncR wf none sorted cfg w0 fail fuel).2.began = (runSyncR wf none sorted cfg w0 fail fuel).2.ended ∧
+    OrdR wf (runSyncR wf none sorted cfg w0 fail fuel).2 ∧
+    ((runSyncR wf none sorted cfg w0 fail fuel).1 = .success →
+      ∀ n, n ∈ wf.g.nodes →
+        ((runSyncR wf none sorted cfg w0 fail fuel).2.st.ns.get n).isDone = true ∧
+        (∀ c, c ∈ ((runSyncR wf none sorted cfg w0 fail fuel).2.st.ns.get n).cks →
+          c ∈ (runSyncR wf none sorted cfg w0 fail fuel).2.ended ∧ (runSyncR wf none sorted cfg w0 fail fuel).2.st.w c = .ok) ∧
+        outputsR wf cfg (runSyncR wf none sorted cfg w0 fail fuel).2 n =
+          ((runSyncR wf none sorted cfg w0 fail fuel).2.st.ns.get n).cks.map wf.body) := by
+  have h0 : RSInv wf cfg (doPollR wf none sorted cfg (RSt.init w0)) :=
+    rsinv_doPollR hw.topo (rsinv_init wf cfg w0) (allE_init w0)
+  obtain ⟨a, b, c⟩ := syncLoopR_spec hw.topo hr fail fuel h0
+  have e : runSyncR wf none sorted cfg w0 fail fuel =
+      syncLoopR wf none sorted cfg fail fuel (doPollR wf none sorted cfg (RSt.init w0)) := rfl
+  rw [e]
+  generalize syncLoopR wf none sorted cfg fail fuel (doPollR wf none sorted cfg (RSt.init w0)) = R at a b c ⊢
+  refine ⟨b, a, ?_⟩
+  intro hsucc n hn
+  obtain ⟨hs, hall, hdone⟩ := c hsucc
+  have hcks : ∀ x, x ∈ (R.2.st.ns.get n).cks → x ∈ R.2.ended := by
+    intro x hx
+    have hl := hs.ninv.loc n
+    obtain ⟨hst, _, _, _⟩ := (isDone_iff _).mp (hdone n hn)
+    have hb := blk_of_started hl hst
+    cases hu : (R.2.st.ns.get n).unrunnable
+    · obtain ⟨i, hi, hci⟩ := mem_cks_ckAt hx
+      rw [← hci]
+      exact hall n i (hl.cover hb hu i hi)
+    · rw [(hl.unrun hu).2.2.2.2] at hx; simp at hx
+  refine ⟨hdone n hn, fun x hx => ⟨hcks x hx, hs.fresh x (hcks x hx)⟩, ?_⟩
+  unfold outputsR
+  apply List.map_congr_left
+  intro x hx
+  show (if R.2.ended.contains x then wf.body x else cfg.oldv x) = wf.body x
+  have : R.2.ended.contains x = true := by simp [hcks x hx]
+  rw [this]; rfl
+
+/-- the model of `Sched/Rerun.lean` without readonly results and with pure bodies reads the plain disk -/
+theorem view_plain (cfg : RCfg) (h : ∀ c, cfg.ro c = .idle) (w : World) : view cfg w = w := by
+  funext c
+  unfold view
+  rw [h c]
+  cases w c <;> rfl
+
+theorem diskWf_plain (wf : Wf) (cfg : RCfg) (h : cfg.oldv = wf.body) (ended : List Ck) : diskWf wf cfg ended = wf := by
+  unfold diskWf
+  cases wf with
+  | mk g mk body =>
+    simp only at h
+    simp only [h, ite_self]
+
+/-! ### submissions over pre-existing results (`Sched/Rerun.lean`): what the code does NOT guarantee (finding D71)
+
+`a` = node 0 (checksum 10), `x` = node 1 (checksum 20), `b` = node 2 ← `x`, whose checksum is built from the value it
+reads from `x` (30 + value).  A body executed in this submission returns checksum + 1000, a result left by the earlier
+submission holds checksum + 500.  The cache holds successful results of all three jobs (`b`: 30 + 520 = 550). -/
+
+def wfR : Wf := ⟨⟨[0, 1, 2], [(1, 2)], [], none⟩,
+  fun n ins => match n with | 0 => [10] | 1 => [20] | _ => [30 + (ins.flatten.foldl (· + ·) 0)],
+  fun c => c + 1000⟩
+
+def cfgR (rerun : Bool) : RCfg := ⟨rerun, fun _ => .idle, fun c => c + 500⟩
+
+/-- the same old results, found in a readonly cache -/
+def cfgRo : RCfg := ⟨true, fun c => if c = 10 ∨ c = 20 ∨ c = 550 then .ok else .idle, fun c => c + 500⟩
+
+def cacheR : World := fun c => if c = 10 ∨ c = 20 ∨ c = 550 then .ok else .idle
+
+/-- `x` failed in the earlier submission (so `b` never ran) -/
+def cacheE : World := fun c => if c = 10 then .ok else if c = 20 then .err else .idle
+
+/-- D71 (i): `rerun=True` with `max_concurrent = 1`, synchronous loop.  The first poll returns `[a, x]`, cut to `[a]`;
+    `x` stays queued, the next poll finds its OLD result and takes it as done: `x` is never re-executed, `b` is started
+    from the old value (checksum 550) and the outputs mix the two submissions.  Without the limit every job is
+    re-executed and `b` is built from the new value. -/
+theorem C15_rerun_cut_job_keeps_old_result :
+    (let r := runSyncR wfR (some 1) [0, 1, 2] (cfgR true) cacheR (fun _ => false) 20
+     (r.1, r.2.began, [0, 1, 2].map (outputsR wfR (cfgR true) r.2))) = (.success, [10, 550], [[1010], [520], [1550]]) ∧
+    (let r := runSyncR wfR none [0, 1, 2] (cfgR true) cacheR (fun _ => false) 20
+     (r.1, r.2.began, [0, 1, 2].map (outputsR wfR (cfgR true) r.2))) = (.success, [10, 20, 1050], [[1010], [1020], [2050]]) := by
+  decide
+
+/-- D71 (i), errored first result: without `rerun` the failed job `x` would be retried by `Job.run`, but with
+    `max_concurrent = 1` it is cut from the first poll, found errored at the next one and never executed: no body runs at
+    all and `x` ends in the `errored` table.  Without the limit `x` is retried and `b` runs. -/
+theorem C15_errored_result_not_retried :
+    (let r := runSyncR wfR (some 1) [0, 1, 2] (cfgR false) cacheE (fun _ => false) 20
+     (r.1, r.2.began, (r.2.st.ns.get 1).errored, (r.2.st.ns.get 2).unrunnable)) = (.success, [], [0], true) ∧
+    (let r := runSyncR wfR none [0, 1, 2] (cfgR false) cacheE (fun _ => false) 20
+     (r.1, r.2.began, (r.2.st.ns.get 1).errored, [0, 1, 2].map (outputsR wfR (cfgR false) r.2))) =
+      (.success, [20, 1050], [], [[510], [1020], [2050]]) := by
+  decide
+
+/-- D71 (ii): `rerun=True`, no limit, asynchronous loop.  `a` and `x` are dispatched together; `a` completes while the
+    body of `x` has not started yet, so the poll finds the old result of `x`, starts `b` from it (checksum 550), and `b`
+    executes while `x` is being re-executed: `b` ends before `x` does. -/
+theorem C15_rerun_stale_read_race :
+    (match runAsyncR wfR none [0, 1, 2] (cfgR true) cacheR
+        [[.acquire 10, .finishOk 10, .complete 10],
+         [.acquire 20, .acquire 550, .finishOk 550, .finishOk 20, .complete 20, .complete 550]] with
+     | .done o r => some (o, r.began, r.ended, [0, 1, 2].map (outputsR wfR (cfgR true) r))
+     | _ => none) = some (.success, [10, 20, 550], [10, 550, 20], [[1010], [1020], [1550]]) := by
+  decide
+
+/-- D71 (ii) with `readonly_caches`: the old result of `x` stays visible WHILE `x` is executing (the re-execution only
+    clears the `cache_root`), so the poll after `a` completes starts `b` from the old value although the body of `x` is
+    already running. -/
+theorem C15_rerun_readonly_stale_read :
+    (match runAsyncR wfR none [0, 1, 2] cfgRo (fun _ => .idle)
+        [[.acquire 10, .acquire 20, .finishOk 10, .complete 10],
+         [.acquire 550, .finishOk 550, .finishOk 20, .complete 20, .complete 550]] with
+     | .done o r => some (o, r.began, r.ended, [0, 1, 2].map (outputsR wfR cfgRo r))
+     | _ => none) = some (.success, [10, 20, 550], [10, 550, 20], [[1010], [1020], [1550]]) := by
+  decide
 
 end PydraModel.Sched
